@@ -27,6 +27,12 @@ def run(ck):
     if ck.has("stream"):
         stream(ck)
     _shared(ck)
+    # ---- shared clauses demonstrated by seeding round 7 (the property broken from a distant module) --------------
+    from props import common as _c7
+    import importlib as _il
+    _m = lambda n: _il.import_module('props.' + n)
+    _c7.import_results(ck, _m("C16"), "3", "Poll::", "7")  # the executor's eventfd keeps its level-triggered mode across update()
+    _c7.dispatch_infra(ck, "7")  # a deferred request never overrides the Remove of an ended stream
 
 
 def executor(ck):
